@@ -1,5 +1,139 @@
-/- C15 — theorems under construction. -/
-import BEI.Model.App
+/-
+  C15 — Bindings read exactly the device, key and modifier combination they name.
+  Statements are about `Reader.value` at the start of a frame (`updateState`: empty consumed set) without UI masking;
+  that Bevy's `ButtonInput`, accumulated mouse deltas and `Gamepad` components hold what the devices sent is Bevy's
+  contract (modelled by `RawInput`, exercised by the correspondence only) — hence *partly partial*.
+-/
+import BEI.Model.Reader
 namespace BEI.Props.C15
-theorem placeholder_true : True := trivial
+open BEI
+
+/-- a reader at the start of a frame with no UI interaction -/
+def fresh (raw : RawInput) (dev : Device) : Reader := { raw := raw, consumed := {}, device := dev }
+
+theorem intersects_empty (m : ModKeys) : ({} : ModKeys).intersects m = false := by
+  simp [ModKeys.intersects]
+
+/-- the left / right key table of the modifier bits, as extracted from `ModKeys::iter_keys` on this run -/
+theorem modkey_table :
+    (ModKeys.keyPairs { alt := true }) = [(8, 9)] ∧ (ModKeys.keyPairs { control := true }) = [(10, 11)]
+    ∧ (ModKeys.keyPairs { shift := true }) = [(12, 13)] ∧ (ModKeys.keyPairs { super := true }) = [(14, 15)]
+    ∧ (ModKeys.keyPairs {}) = [] := by decide
+
+/-- every required modifier bit contributes its (left, right) pair and nothing else does -/
+theorem keyPairs_mem (m : ModKeys) (p : Nat × Nat) :
+    p ∈ m.keyPairs ↔ (m.alt = true ∧ p = (8, 9)) ∨ (m.control = true ∧ p = (10, 11)) ∨ (m.shift = true ∧ p = (12, 13))
+      ∨ (m.super = true ∧ p = (14, 15)) := by
+  obtain ⟨a, c, s, u⟩ := m
+  cases a <;> cases c <;> cases s <;> cases u <;> simp [ModKeys.keyPairs, Gen.modKeys, ModKeys.has] <;> grind
+
+/-- (1) a keyboard binding is active iff its key is down and for every required modifier the left or the right
+    variant is down -/
+theorem key_active (raw : RawInput) (dev : Device) (k : Nat) (m : ModKeys) :
+    (fresh raw dev).value (.key k m) =
+      .bool (raw.keys.contains k && m.keyPairs.all (fun p => raw.keys.contains p.1 || raw.keys.contains p.2)) := by
+  simp [fresh, Reader.value, Reader.modKeysPressed, Reader.modsDown, intersects_empty]
+
+theorem mbtn_active (raw : RawInput) (dev : Device) (b : Nat) (m : ModKeys) :
+    (fresh raw dev).value (.mbtn b m) =
+      .bool (raw.mouseButtons.contains b && m.keyPairs.all (fun p => raw.keys.contains p.1 || raw.keys.contains p.2)) := by
+  simp [fresh, Reader.value, Reader.modKeysPressed, Reader.modsDown, intersects_empty]
+
+/-- (2) irrespective of any other keys: two raw states that agree on the named key and on the modifier keys of the
+    required bits give the same reading -/
+theorem key_congr (raw raw' : RawInput) (dev : Device) (k : Nat) (m : ModKeys)
+    (hk : raw.keys.contains k = raw'.keys.contains k)
+    (hm : ∀ p ∈ m.keyPairs, raw.keys.contains p.1 = raw'.keys.contains p.1 ∧ raw.keys.contains p.2 = raw'.keys.contains p.2) :
+    (fresh raw dev).value (.key k m) = (fresh raw' dev).value (.key k m) := by
+  rw [key_active, key_active, hk]
+  congr 2
+  apply List.all_congr rfl
+  intro p hp
+  rw [(hm p hp).1, (hm p hp).2]
+where
+  List.all_congr {α} {l1 l2 : List α} {f g : α → Bool} (h : l1 = l2) (hf : ∀ x ∈ l1, f x = g x) : l1.all f = l2.all g := by
+    subst h
+    induction l1 with
+    | nil => rfl
+    | cons x xs ih => simp only [List.all_cons]; rw [hf x (by simp), ih (fun y hy => hf y (by simp [hy]))]
+
+/-- (3) a binding without modifier requirements ignores the modifier keys (and everything but its own key) -/
+theorem no_mods_ignores_modifiers (raw : RawInput) (dev : Device) (k : Nat) :
+    (fresh raw dev).value (.key k {}) = .bool (raw.keys.contains k) := by
+  rw [key_active]; simp [modkey_table.2.2.2.2]
+
+/-- (4) mouse motion and wheel report the frame's accumulated delta under the same modifier rule, zero on quiet frames -/
+theorem motion_value (raw : RawInput) (dev : Device) (m : ModKeys) :
+    (fresh raw dev).value (.motion m) =
+      if m.keyPairs.all (fun p => raw.keys.contains p.1 || raw.keys.contains p.2) then .a2 raw.motion.1 raw.motion.2 else .a2 0 0 := by
+  simp only [fresh, Reader.value, Reader.modKeysPressed, Reader.modsDown, intersects_empty]
+  generalize (m.keyPairs.all fun p => raw.keys.contains p.1 || raw.keys.contains p.2) = bb
+  cases bb <;> simp
+
+theorem wheel_value (raw : RawInput) (dev : Device) (m : ModKeys) :
+    (fresh raw dev).value (.wheel m) =
+      if m.keyPairs.all (fun p => raw.keys.contains p.1 || raw.keys.contains p.2) then .a2 raw.wheel.1 raw.wheel.2 else .a2 0 0 := by
+  simp only [fresh, Reader.value, Reader.modKeysPressed, Reader.modsDown, intersects_empty]
+  generalize (m.keyPairs.all fun p => raw.keys.contains p.1 || raw.keys.contains p.2) = bb
+  cases bb <;> simp
+
+theorem quiet_frame (raw : RawInput) (dev : Device) (m : ModKeys) (h : raw.motion = (0, 0)) :
+    (fresh raw dev).value (.motion m) = .a2 0 0 := by
+  rw [motion_value]; split <;> simp [h]
+
+/-- (5) a context tied to gamepad `g` reads only that gamepad: the reading depends on nothing but `g`'s own state, and
+    is inactive if `g` is gone -/
+theorem single_reads_only_g (raw raw' : RawInput) (g : Nat)
+    (h : raw.pads.find? (fun p => p.handle == g) = raw'.pads.find? (fun p => p.handle == g)) (b x : Nat) :
+    (fresh raw (.single g)).value (.padBtn b) = (fresh raw' (.single g)).value (.padBtn b)
+    ∧ (fresh raw (.single g)).value (.padAxis x) = (fresh raw' (.single g)).value (.padAxis x) := by
+  simp [fresh, Reader.value, Reader.findPad, h]
+
+theorem single_absent_inactive (raw : RawInput) (g : Nat) (h : raw.pads.find? (fun p => p.handle == g) = none) (b x : Nat) :
+    (fresh raw (.single g)).value (.padBtn b) = .bool false ∧ (fresh raw (.single g)).value (.padAxis x) = .a1 0 := by
+  simp [fresh, Reader.value, Reader.findPad, h]
+
+/-- (6) an unrestricted context sees a button pressed on any gamepad -/
+theorem any_button (raw : RawInput) (b : Nat) :
+    (fresh raw .any).value (.padBtn b) = .bool (raw.pads.any (fun p => p.pressed b)) := by
+  simp [fresh, Reader.value]
+
+/-- … and, when exactly one gamepad reports a non-zero value on an axis, that value -/
+theorem any_axis_unique (raw : RawInput) (x : Nat) (pre post : List Pad) (p : Pad) (q : Rat)
+    (hsplit : raw.pads = pre ++ p :: post) (hp : p.axisRaw x = some q) (hq : q ≠ 0)
+    (hpre : ∀ p' ∈ pre, (p'.axisRaw x).filter (fun q => q != 0) = none)
+    : (fresh raw .any).value (.padAxis x) = .a1 q := by
+  simp only [fresh, Reader.value, hsplit]
+  have : (pre ++ p :: post).findSome? (fun p => (p.axisRaw x).filter (fun q => q != 0)) = some q := by
+    rw [List.findSome?_append]
+    have h1 : pre.findSome? (fun p => (p.axisRaw x).filter (fun q => q != 0)) = none := by
+      rw [List.findSome?_eq_none_iff]; exact hpre
+    rw [h1]
+    simp [List.findSome?_cons, hp, hq]
+  simp [this]
+
+/-- (7) with a single gamepad both settings behave identically (axis values within the device range [-1, 1]) -/
+theorem one_gamepad_same (p : Pad) (raw : RawInput) (hone : raw.pads = [p]) (b x : Nat)
+    (hrange : ∀ q, p.axisRaw x = some q → -1 ≤ q ∧ q ≤ 1) :
+    (fresh raw .any).value (.padBtn b) = (fresh raw (.single p.handle)).value (.padBtn b)
+    ∧ (fresh raw .any).value (.padAxis x) = (fresh raw (.single p.handle)).value (.padAxis x) := by
+  constructor
+  · simp [fresh, Reader.value, Reader.findPad, hone]
+  · simp only [fresh, Reader.value, Reader.findPad, hone, List.findSome?_cons, List.findSome?_nil, List.find?_cons,
+      beq_self_eq_true]
+    cases hq : p.axisRaw x with
+    | none => simp [hq]
+    | some q =>
+      obtain ⟨h1, h2⟩ := hrange q hq
+      have hclamp : Pad.clamp1 q = q := by
+        unfold Pad.clamp1
+        split
+        · rename_i h; exact absurd h (by grind)
+        · split
+          · rename_i h; exact absurd h (by grind)
+          · rfl
+      by_cases h0 : q = 0
+      · subst h0; simp [hclamp, hq, Option.filter]
+      · simp [h0, hclamp, hq, Option.filter]
+
 end BEI.Props.C15
